@@ -40,6 +40,6 @@ impl Mw for Adapter {
             }
         }
         let fut = svc.call(req);
-        Some(Box::pin(async move { render(fut.await) }))
+        Some(held(fut, render))
     }
 }
